@@ -1,8 +1,13 @@
 from engine.api import Target, Proof, Native
+from engine.extract import fields_rule
 ID = 'C10'
 LEVEL = 'proof'
 BS = 'net/basic_socket.h'
 EP = 'io/epoll.cpp'
+KS = 'net/kernel_socket.cpp'
+KSR = [(r'Timeout timeout\(m_timeout\);', 'struct Timeout timeout; Timeout_ctor(&timeout, this->m_timeout);', 0),
+       (r'SmartCloneIOV<8> clone\(iov, iovcnt\);', ';', 0), (r'iovector_view view\(clone\.ptr, iovcnt\);', 'struct view_ view;', 0),
+       (r'\(void\*&\)buf', 'buf', 0), (r'(?<![\w>.])fd\b', 'this->fd', 1), (r'(?<![\w>.])m_timeout\b', 'this->m_timeout', 0)]
 ENG = [(r'LOG_ERROR_RETURN\((?:EINVAL|EALREADY|0), -1,[^;]*;', 'return -1;', 1),
        (r'_inflight_events\.size\(\)', 'this->inflight_size', 1), (r'_inflight_events\.resize\(', 'inflight_resize(this, ', 0),
        (r'auto& entry = _inflight_events\[e\.fd\];', 'struct InFlightEvent *entry_ = &this->_inflight_events[e.fd];', 1), (r'\bentry\.', 'entry_->', 4),
@@ -36,14 +41,21 @@ TARGETS = [
         marks={'count': 1, 0: dict(name='EV', frame=['this', 'e_', 'value', 'entry_', 'events', 'N_FIRED', 'N_DISARM', 'N_EVFD_READ', 'FIRED', 'PENDING_DISARM'],
                effects={'DATACB': ['FIRED', 'N_FIRED', 'PENDING_DISARM'], 'EV_rm_interest': ['this', 'PENDING_DISARM', 'N_DISARM'], 'eventfd_read_': ['value', 'N_EVFD_READ']}, pure=['FDCB'],
                ptr_targets={'e_': ['this'], 'entry_': ['this']})}),
+    Target('sat_add', 'common/utility.h', r'uint64_t sat_add\(uint64_t x, uint64_t y\)'),
+    Target('t_ctor', 'common/timeout.h', r'Timeout\(uint64_t x\)              (?=\{)', rules=[fields_rule(['m_expiration'])]),
+    Target('kss_read', KS, r'ssize_t read\(void\* buf, size_t count\) override', rules=KSR),
+    Target('kss_write', KS, r'ssize_t write\(const void\* buf, size_t count\) override', rules=KSR),
+    Target('kss_readv', KS, r'ssize_t readv\(const iovec\* iov, int iovcnt\) override', rules=KSR),
+    Target('kss_writev', KS, r'ssize_t writev\(const iovec\* iov, int iovcnt\) override', rules=KSR),
 ]
-UNITS = {'sock.c': 'sock.c.in', 'epoll2.c': 'epoll2.c.in'}
+UNITS = {'sock.c': 'sock.c.in', 'epoll2.c': 'epoll2.c.in', 'kstream.c': 'kstream.c.in'}
 PROOFS = [
     Proof('doio_once', 'sock.c', 'h_doio_once', kind='L', min_obligations=2),
     Proof('doio_loop', 'sock.c', 'h_doio_loop', kind='L', min_obligations=4, backend='cadical'),
     Proof('epoll/add_interest', 'sock.c', 'h_add_interest', kind='L', min_obligations=5),
     Proof('epoll/wait_for_fd', 'epoll2.c', 'h_wait_for_fd', kind='L', min_obligations=6),
     Proof('epoll/dispatch', 'epoll2.c', 'h_wait_for_events', kind='L', min_obligations=5),
+    Proof('stream/one_deadline', 'kstream.c', 'h_kss', kind='L', min_obligations=3),
     Proof('epoll/rm_interest', 'sock.c', 'h_rm_interest', kind='L', min_obligations=4),
 ]
 NATIVES = []
